@@ -312,6 +312,45 @@ func checkC08(c *Ctx) {
 			ru.Check(live && okg, f.Name(), "library call of Unscoped()", call.Pos(), "only when the parent is unscoped", "library code calls Unscoped() unconditionally: the nested statement sees soft-deleted rows although the user did not ask", "facts: "+strings.Join(facts.List(), ", "))
 		}
 	}
+	// a FRESH statement (getInstance's new-statement arm, reached through Session{NewDB: true}: the tx of hooks,
+	// of the FindInBatches callback, association sessions) inherits Unscoped only under Config.PropagateUnscoped
+	{
+		gi := p.MethodDecl(pkgGorm, "DB", "getInstance")
+		ginfo := gi.Pkg.TypesInfo
+		ggs := p.Guards(gi, nil)
+		for _, lit := range litsOfType(ginfo, gi.Body, stmtT, false) {
+			if v := compositeField(lit, "Unscoped"); v != nil {
+				facts, _ := ggs.At(lit.Pos())
+				okp := false
+				for fc := range facts {
+					if strings.HasPrefix(fc, "T:") && strings.HasSuffix(fc, ".PropagateUnscoped") {
+						okp = true
+					}
+				}
+				ru.Check(okp, gi.Name(), "fresh statement inherits Unscoped", v.Pos(), "only under Config.PropagateUnscoped", "a fresh statement always inherits Unscoped from the statement it is started from: statements begun through Session{NewDB: true} from an unscoped one (the tx handed to hooks and to FindInBatches callbacks) see soft-deleted rows and delete physically although nobody asked")
+			}
+		}
+		ast.Inspect(gi.Body, func(n ast.Node) bool {
+			as, ok := n.(*ast.AssignStmt)
+			if !ok {
+				return true
+			}
+			for _, l := range as.Lhs {
+				if !fieldSel(ginfo, l, unF) {
+					continue
+				}
+				facts, _ := ggs.At(as.Pos())
+				okp := false
+				for fc := range facts {
+					if strings.HasPrefix(fc, "T:") && strings.HasSuffix(fc, ".PropagateUnscoped") {
+						okp = true
+					}
+				}
+				ru.Check(okp, gi.Name(), "fresh statement inherits Unscoped", as.Pos(), "only under Config.PropagateUnscoped", "getInstance copies Unscoped into a fresh statement without the PropagateUnscoped option")
+			}
+			return true
+		})
+	}
 	for _, want := range []string{"preloadDB", "preloadEntryPoint", "DeleteBeforeAssociations"} {
 		ru.Check(propagators[want], "callbacks."+want, "propagates Unscoped to its nested session", p.FuncDecl(pkgCallbacks, want).Body.Pos(), "parent's Unscoped reaches the nested statement", want+" builds a nested session without propagating the parent's Unscoped: Unscoped() is silently lost for preloads / association deletes")
 	}
